@@ -52,7 +52,7 @@ ASSUMPTIONS = [
     "the archive oracle does not prescribe the name of a rotated file, only that nothing existing is replaced and every record is found where its template's lineage began",
 ]
 EXPECTED_PROBES = ["empty-output-read", "double-close", "with-body-raised", "split-exact-multiple", "split-part-readable", "rotation", "same-second-rotation",
-                   "clock-backward", "pre-existing-rotated", "restart", "skewed-stamp", "two-writers-open"]  # fmt: skip
+                   "clock-backward", "pre-existing-rotated", "restart", "skewed-stamp", "two-writers-open", "write-refused-by-injected-fault"]  # fmt: skip
 
 TARGETS = [
     ("stream", "/simfs/o.records"),
@@ -156,6 +156,9 @@ def gen_archive(rng, tier):
         elif r < 0.85:
             dts = [0, 1, 400000, 3600 * 1000000, -3600 * 1000000] if burst else DELTAS_US
             ops.append({"op": "advance", "dt_us": rng.choice(dts)})
+        elif r < 0.87:
+            # the next rotation's rename, or the next open of a new archive file, fails once (permissions, full disk)
+            ops.append({"op": "fault", "what": rng.choice(["rename", "open_w"]), "errno": rng.choice(["EACCES", "ENOSPC", "ENAMETOOLONG"])})
         elif r < 0.90:
             ops.append({"op": "restart"})
         elif r < 0.95:
@@ -653,6 +656,9 @@ def run_archive(plan, w, viols, states):
             if dt < 0:
                 w.probe("clock-backward")
             w.log("clock", "advance", dt)
+        elif k == "fault":
+            w.fs.inject[op["what"]] = op.get("errno", "EACCES")
+            w.log("fault", "arm", op["what"])
         elif k == "write":
             if closed:
                 arch = make_archiver(plan, root, name)
@@ -666,6 +672,7 @@ def run_archive(plan, w, viols, states):
             gen_ts = rec._generated
             path = expected_path(plan, root, name, gen_ts, op["s"])
             before = len([e for e in w.fs.events if e[0] == "rename"])
+            fired_before = w.stats["fault:rename_error"] + w.stats["fault:open_error"]
             try:
                 arch.write(rec)
                 placed[n] = path
@@ -674,7 +681,10 @@ def run_archive(plan, w, viols, states):
             except Exception as e:  # noqa: BLE001
                 w.probe("write-refused")
                 w.log("arch", "write", n, "->", type(e).__name__)
-                add(_viol("C17.write-raises", "step %d: archiving a record raised %s: %s" % (step, type(e).__name__, short(str(e), 120))))
+                if w.stats["fault:rename_error"] + w.stats["fault:open_error"] == fired_before:
+                    add(_viol("C17.write-raises", "step %d: archiving a record raised %s: %s" % (step, type(e).__name__, short(str(e), 120))))
+                else:
+                    w.probe("write-refused-by-injected-fault")  # refused, not lost: the record is not in the model
             after = len([e for e in w.fs.events if e[0] == "rename"])
             if after > before:
                 rotations += after - before
@@ -710,10 +720,13 @@ def run_archive(plan, w, viols, states):
             if not w.fs.exists(path):
                 w.fs.makedirs(os.path.dirname(path), exist_ok=True)
                 rec = pool.make("D0", [n, op["s"]])
+                armed = dict(w.fs.inject)  # the armed fault is meant for the archiver, not for this other process
+                w.fs.inject.clear()
                 ww = RecordWriter(path)
                 ww.write(rec)
                 ww.flush()
                 ww.close()
+                w.fs.inject.update(armed)
                 placed[n] = path
                 written.append(n)
                 n += 1
@@ -724,6 +737,7 @@ def run_archive(plan, w, viols, states):
     rn = [e for e in w.fs.events if e[0] == "rename"]
     if pre and any(e for e in rn):
         w.probe("pre-existing-rotated")
+    w.fs.inject.clear()
     if not closed:
         arch.close()
     # ---- conservation and placement ---------------------------------------------------------------
